@@ -86,6 +86,8 @@ def run(ctx):
     _zinc.version_threading(ctx, 'C10.D1', 'zincdumper')
     _zinc.version_threading(ctx, 'C10.D1', 'jsondumper')
     _entry_paths(ctx, m)
+    from . import c18
+    c18.nearest_pure(ctx, 'C10.D1')
 
 
 def _writer_site(ctx, m, modname, gates):
